@@ -44,6 +44,12 @@ type Violation struct {
 	Decisions []int
 	Count     int
 	Stack     string
+	Alts      []AltModel // further models of the same violated obligation from other paths
+}
+
+type AltModel struct {
+	Model   map[string]string
+	Choices []ChoiceRec
 }
 
 func (v *Violation) Key() string { return v.Class + "|" + v.Label + "|" + v.Site }
@@ -89,6 +95,8 @@ type Run struct {
 	witnesses    []Witness
 	engineErrors []string
 	schedPrefixes int
+	diverged int
+	witLabel map[string]int
 	params  map[string]int
 	spec    HarnessSpec
 	wall    time.Duration
@@ -98,7 +106,7 @@ func NewRun(eng *Engine, harness string, entry *ssa.Function, cfg Config) *Run {
 	r := &Run{cfg: cfg, eng: eng, harness: harness, entry: entry,
 		pathEnds: map[string]int{}, obl: map[string]map[string]int{}, oblSites: map[string]bool{},
 		violations: map[string]*Violation{}, covers: map[string]*CoverInfo{}, notes: map[string]bool{},
-		funcs: map[*ssa.Function]bool{}, intrUsed: map[string]bool{}}
+		funcs: map[*ssa.Function]bool{}, intrUsed: map[string]bool{}, witLabel: map[string]int{}}
 	r.cond = sync.NewCond(&r.mu)
 	return r
 }
@@ -223,6 +231,8 @@ func (r *Run) obligation(class, label, site, status string, model map[string]*Te
 				Model: modelStrings(model, ex), Choices: append([]ChoiceRec{}, ex.choices...),
 				Decisions: append([]int{}, ex.trace...), Stack: ex.where()}
 			r.violations[key] = v
+		} else if len(v.Alts) < 6 {
+			v.Alts = append(v.Alts, AltModel{Model: modelStrings(model, ex), Choices: append([]ChoiceRec{}, ex.choices...)})
 		}
 		v.Count++
 	}
@@ -325,6 +335,16 @@ func (r *Run) runPath(sol *Solver, prefix []int) {
 	if reason == "ok" && len(prefix) <= len(ex.trace) {
 		r.mu.Lock()
 		need := len(r.witnesses) < 400
+		for _, c := range ex.covers {
+			if r.witLabel[c] < 3 {
+				need = true
+			}
+		}
+		if need {
+			for _, c := range ex.covers {
+				r.witLabel[c]++
+			}
+		}
 		r.mu.Unlock()
 		if need {
 			res, model := sol.CheckWith(tTrue, ex.modelTerms())
